@@ -126,6 +126,8 @@ pub(crate) struct LiveEvents<'a> {
     io_failure: RefCell<Option<(std::io::ErrorKind, String)>>,
     /// Number of events handed out by `next` (not `peek`) so far.
     delivered: u64,
+    /// Containers opened and not yet closed by the events handed out by `next`.
+    open_depth: usize,
     /// A syntax error met while skipping the rest of a failed document; returned by the next pull.
     pending_error: Option<Error>,
 }
@@ -205,6 +207,7 @@ impl<'a> LiveEvents<'a> {
             io_failed: std::cell::Cell::new(false),
             io_failure: RefCell::new(None),
             delivered: 0,
+            open_depth: 0,
             pending_error: None,
         }
     }
@@ -258,6 +261,7 @@ impl<'a> LiveEvents<'a> {
             io_failed: std::cell::Cell::new(false),
             io_failure: RefCell::new(None),
             delivered: 0,
+            open_depth: 0,
             pending_error: None,
         }
     }
@@ -807,12 +811,12 @@ impl<'de> Events<'de> for LiveEvents<'de> {
 
         if let Some(ev) = self.look.take() {
             self.last_location = ev.location();
-            self.delivered += 1;
+            self.note_delivered(&ev);
             return Ok(Some(ev));
         }
         let ev = self.next_impl()?;
-        if ev.is_some() {
-            self.delivered += 1;
+        if let Some(ev) = &ev {
+            self.note_delivered(ev);
         }
         Ok(ev)
     }
@@ -858,6 +862,47 @@ impl<'a> LiveEvents<'a> {
     pub(crate) fn delivered(&self) -> u64 {
         self.delivered
     }
+    fn note_delivered(&mut self, ev: &Ev<'a>) {
+        self.delivered += 1;
+        match ev {
+            Ev::SeqStart { .. } | Ev::MapStart { .. } => self.open_depth += 1,
+            Ev::SeqEnd { .. } | Ev::MapEnd { .. } => {
+                self.open_depth = self.open_depth.saturating_sub(1)
+            }
+            _ => {}
+        }
+    }
+
+    /// Called by the multi-document loops after the target of a document returned `Ok`
+    /// (`delivered_before` is [`Self::delivered`] from before it was called). One root node is
+    /// one document, so the document has to be read to its end before the next one is looked at:
+    ///
+    /// - a target that read nothing (a `Deserialize` impl that ignores its input) has its
+    ///   document read on its behalf, through the same pipeline as any other event (budget,
+    ///   alias limits); its value stands;
+    /// - a target that stopped inside its document (a root type that swallowed an error of its
+    ///   inner type, say) would leave the rest to be taken for further documents: the rest is
+    ///   read and the document fails.
+    pub(crate) fn complete_document(&mut self, delivered_before: u64) -> Result<(), Error> {
+        if self.delivered == delivered_before {
+            let _ = self.next()?;
+            while self.open_depth > 0 && self.next()?.is_some() {}
+            return Ok(());
+        }
+        if self.open_depth > 0 {
+            let location = match self.peek()? {
+                Some(ev) => ev.location(),
+                None => self.last_location,
+            };
+            while self.open_depth > 0 && self.next()?.is_some() {}
+            return Err(
+                Error::msg("the target type did not read its document to the end")
+                    .with_location(location),
+            );
+        }
+        Ok(())
+    }
+
     pub(crate) fn synthesized_null_emitted(&self) -> bool {
         self.synthesized_null_emitted
     }
@@ -876,6 +921,7 @@ impl<'a> LiveEvents<'a> {
         self.look = None;
         self.inject.clear();
         self.rec_stack.clear();
+        self.open_depth = 0;
 
         // After a reader error the rest of the input is not what the reader meant to deliver
         // (the failed read left a hole that the parser saw as end of input): stop here rather
